@@ -80,7 +80,10 @@ Flags == [numnum |-> NumNum(toks), renderable |-> Renderable(toks), jux |-> Site
 Behaviour ==
   IF P.ok THEN [toks |-> toks, v |-> "accept", tree |-> P.node, fl |-> Flags,
                 ex |-> IF Sites(toks) # {} THEN ExplicitOrigin(toks, [i \in 1..Len(toks) |-> i]) ELSE <<>>,
-                ext |-> IF Sites(toks) # {} THEN Explicit(toks) ELSE <<>>]
+                ext |-> IF Sites(toks) # {} THEN Explicit(toks) ELSE <<>>,
+                sites |-> [sup |-> SupSites(toks), plus |-> WPos(toks), wrap |-> WrapSites(toks, P.node)]]
   ELSE [toks |-> toks, v |-> IF Viable(toks) THEN "incomplete" ELSE "reject", pos |-> P.pos, fl |-> Flags]
 Emit == EmitOn => PrintT(<<"BEH", ToJson(Behaviour)>>)
+\* the subexpressions E used for the substitution lemma, for the harness (C20 replays exactly these)
+ASSUME PrintT(<<"SAMPLES", ToJson(Samples)>>)
 =============================================================================
